@@ -33,6 +33,8 @@ type (
 		into                  string
 		joinExpr              sqlparser.Expr
 		joinType              sqlparser.JoinType
+		// serialises the evaluation of the ON condition, see on
+		onMut sync.Mutex
 	}
 	HashedTable struct {
 		Rows map[string][]*any
@@ -278,6 +280,16 @@ func (j *Join) ParallelJoinFunc(l, r *HashedTable) ([]any, error) {
 	return slice, nil
 }
 
+// on evaluates the ON condition for one pair of keys. The condition is evaluated against the
+// one *Query the join belongs to, and sub-queries, EXISTS, ASYNC and ONCE calls in it register
+// post processors and memo entries there: the tasks of a PARALLEL join take turns here and
+// pair up the matching rows concurrently
+func (j *Join) on(current Map) (any, error) {
+	j.onMut.Lock()
+	defer j.onMut.Unlock()
+	return Expr(j.query, current, j.joinExpr, HardCodedValueExprOpt())
+}
+
 func (j *Join) JoinMatchFunc(lk string, lv *map[string]any, l, r *HashedTable) (bool, []any, error) {
 	slice := make([]any, 0)
 	b := false
@@ -285,7 +297,7 @@ func (j *Join) JoinMatchFunc(lk string, lv *map[string]any, l, r *HashedTable) (
 		_current := make(Map)
 		maps.Copy(_current, *lv)
 		maps.Copy(_current, *rv)
-		rs, err := Expr(j.query, _current, j.joinExpr, HardCodedValueExprOpt())
+		rs, err := j.on(_current)
 		if err != nil {
 			return false, nil, err
 		}
